@@ -45,6 +45,8 @@ def cases(tier, seed):
         sp["pad_after"] = 3
         if i % 8 == 5 and common.crop_catalogue()[sp["crop"]["name"]]["CalendarType"] == 1:
             sp["crop"]["kw"]["SwitchGDD"] = 1      # the conversion works on a copy of the weather table
+        if i % 4 == 2:
+            gen.low_et0(rng, sp)
         if i % 2:
             gen.et0_spike(rng, sp)     # a value far outside the spread of its column
         out.append({"spec": sp, "seed": int(rng.integers(0, 2 ** 31 - 1)),
